@@ -637,6 +637,11 @@ func (s *Slice) checkWithHardRecovery(node *NodeInfo, downAfterNoAlive int, seco
 		log.Warn("[ns:%s, %s:%s] check slave status with hard strategy, Get master status: %s, get master err: %v, duration: %v", s.Namespace, s.Cfg.Name, node.Address, masterStatus.String(), err, time.Since(start))
 		// 主库下线时只跳过主从同步检查: 本轮探活失败 (conn == nil) 的从库保持原状态, 与步骤 5 一致
 		if conn != nil && node.IsStatusDown() {
+			// 主库下线时同样需要检查硬恢复策略是否允许恢复, 冷却期内不恢复
+			if !strategy.AllowRecovery() {
+				log.Warn("[ns:%s, %s:%s] check slave status with hard strategy, still StatusDown in cooldown period, (case master down), duration: %v", s.Namespace, s.Cfg.Name, node.Address, time.Since(start))
+				return
+			}
 			node.SetStatusUp()
 			log.Warn("[ns:%s, %s:%s] check slave status with hard strategy, Marked as StatusUp success, Slave recovered from down, (case master down), duration: %v", s.Namespace, s.Cfg.Name, node.Address, time.Since(start))
 		}
